@@ -319,7 +319,7 @@ def c19_pool(tk: int, tv: int, ck: int, cv: int, rk: int, rv: int, t0: int, dt: 
     pre: 1 <= tk <= 2 and 0 <= ck <= 2 and 0 <= rk <= 2
     pre: tv > 0 and cv > 0 and rv > 0 and ptv > 0 and 1 <= ptk <= 2
     pre: dt >= 0
-    pre: legacy == P.legacy and req_level == P.req_level
+    pre: legacy == P.legacy and req_level == P.req_level and early == P.early
     post: _
     """
     return run(_pool_body, tk, tv, ck, cv, rk, rv, t0, dt, req_level, ptk, ptv, legacy, second, early)
@@ -363,11 +363,12 @@ def JOBS(tier):
     ]
     for legacy in (False, True):
         for req_level in (False, True):
-            jobs.append({"func": "c19_pool", "part": {"legacy": legacy, "req_level": req_level}, "timeout": t,
-                         "path_timeout": 60})
-            if not legacy:
-                jobs.append({"func": "c19_pool", "part": {"legacy": legacy, "req_level": req_level, "tunnel": True}, "timeout": t,
+            for early in (False, True):
+                jobs.append({"func": "c19_pool", "part": {"legacy": legacy, "req_level": req_level, "early": early}, "timeout": t,
                              "path_timeout": 60})
+                if not legacy:
+                    jobs.append({"func": "c19_pool", "part": {"legacy": legacy, "req_level": req_level, "early": early, "tunnel": True},
+                                 "timeout": t, "path_timeout": 60})
     return jobs
 
 
